@@ -13,7 +13,7 @@ import (
 // (stefc/generator/validate.go) stefc REFUSES most of them before generating anything: they are
 // regression cases now. lib/hgen.py counts a refusal of the expected class; if stefc accepts
 // such a schema again and the defect reproduces, the PROP-FAIL with the old signature fires.
-// refusal == "": still accepted by stefc, still a known finding (name clashes).
+// (the name clashes are refused since repo 2f1d523.)
 type hazard struct {
 	name, expect, refusal, why, text string
 }
@@ -40,15 +40,21 @@ var hazardList = []hazard{
 	{"hz_optional_dict_struct", "generated-code-does-not-compile:optional-dict-struct", "optional-dict-struct",
 		"an optional field whose type is a dictionary struct: the presence setter Set<F>() and the dictionary setter Set<F>(*S) collide, the copy code calls s.Set<F>() without its argument",
 		"package hgen.pa\nstruct R1 root {\n  F1 S1 optional\n}\nstruct S1 dict(S1) {\n  F1 int64\n}\n"},
-	{"hz_oneof_names", "generated-code-does-not-compile:name-clash", "",
+	{"hz_oneof_names", "generated-code-does-not-compile:name-clash", "name-clash",
 		"oneof alternatives named Type / None collide with the generated Type()/SetType() methods and the <Oneof>TypeNone constant",
 		"package hgen.pa\nstruct R1 root {\n  F1 O1\n}\noneof O1 {\n  Type int64\n  None bool\n}\n"},
-	{"hz_struct_names", "generated-code-does-not-compile:name-clash", "",
+	{"hz_struct_names", "generated-code-does-not-compile:name-clash", "name-clash",
 		"struct fields named Init / Clone collide with the generated methods (field init vs method init)",
 		"package hgen.pa\nstruct R1 root {\n  Init bool\n  Clone int64\n}\n"},
 	{"hz_keyword", "generated-code-does-not-compile:go-keyword-field", "go-keyword-field",
 		"a field whose lower-cased name is a Go keyword (type) is used verbatim as a struct member / parameter name",
-		"package hgen.pa\nstruct R1 root {\n  type uint64\n  x string\n}\n"},
+		"package hgen.pa\nstruct R1 root {\n  type uint64\n  X string\n}\n"},
+	{"hz_lowercase", "generated-code-does-not-compile:name-clash", "lowercase-field",
+		"a field name that starts with a lower case letter: the getter foo() and the struct member foo get the same Go name (found while repairing the name clashes, repo 2f1d523)",
+		"package hgen.pa\nstruct R1 root {\n  foo uint64\n  Bar string\n}\n"},
+	{"hz_setter_names", "generated-code-does-not-compile:name-clash", "name-clash",
+		"a field SetX next to a field X: the setter of X and the getter of SetX collide",
+		"package hgen.pa\nstruct R1 root {\n  X uint64\n  SetX uint64\n}\n"},
 	{"hz_direct_recursion", "init-never-terminates", "self-containment",
 		"a struct that contains itself through a NON-optional field is accepted by the parser and compiles, but Init()/New<Struct>() recurse without bound (stack overflow, not recoverable)",
 		"package hgen.pa\nstruct R1 root {\n  F1 R1\n  F2 int64\n}\n"},
